@@ -741,6 +741,7 @@ theorem tinv_handle (s : Sys) (self : Cid) (e : Env) (hi : TablesInv none none s
   split
   · split
     · exact hi
+    · exact tinv_sameT ((sameT_upd s self (fun x => if x.state = .killing then { x with restarting := none } else x) (fun _ => by split <;> rfl)).trans (sameT_deadLetter _ _)) hi
     · exact tinv_sameT (sameT_deadLetter _ _) hi
   · rename_i hcond
     -- the handler runs: `self` exists, and is a zombie or not terminated
@@ -781,17 +782,19 @@ theorem tinv_handle (s : Sys) (self : Cid) (e : Env) (hi : TablesInv none none s
               (Or.inl (by simp)) hi
             simpa [dropEx_none] using this
           exact tinv_doKill _ self _ _ _ hself (Or.inr (by simp)) hT
-        · exact hi
+        · exact tinv_sameT (sameT_upd s self _ (fun _ => rfl)) hi
     · exact tinv_onKilled _ _ _ _ _ hself hst hi
     · exact tinv_sameT (sameT_onSupervise _ _ _) hi
     · exact tinv_sameT (sameT_upd s self _ (fun _ => rfl)) hi
     · exact tinv_sameT (sameT_upd s self _ (fun _ => rfl)) hi
     · rename_i poison _
-      have hT : TablesInv none none (upd s self (fun x => { x with state := .killing, restarting := some poison })) := by
-        have := tinv_settle none none s self (fun x => { x with state := .killing, restarting := some poison }) hself
-          (fun _ => ⟨rfl, rfl⟩) (Or.inl (by simp)) hi
-        simpa [dropEx_none] using this
-      exact tinv_doKill _ self _ _ _ hself (Or.inr (by simp)) hT
+      split
+      · have hT : TablesInv none none (upd s self (fun x => { x with state := .killing, restarting := some poison })) := by
+          have := tinv_settle none none s self (fun x => { x with state := .killing, restarting := some poison }) hself
+            (fun _ => ⟨rfl, rfl⟩) (Or.inl (by simp)) hi
+          simpa [dropEx_none] using this
+        exact tinv_doKill _ self _ _ _ hself (Or.inr (by simp)) hT
+      · exact hi
     · repeat' split
       all_goals first
         | exact hi
